@@ -109,3 +109,24 @@ Example c08_rank_example :
   filter_dependencies repaired ex_pop8b 3 (mkPoint false (TIface 0) SByType None true) [Some 0; Some 1; Some 2] = FOk [2]
   /\ filter_dependencies repaired ex_pop8b 3 (mkPoint false (TIface 0) SByType None true) [Some 0; Some 1] = FOk [1].
 Proof. vm_compute. split; reflexivity. Qed.
+
+(* ---- run level (Proofs/FactoryWiring.v): after a successful start every component found in a qualified
+   field — single value or slice element — declares a qualifier of the requested set ------------------------- *)
+From IocVerif Require Import Model.Factory Model.App Proofs.FactoryWiring Proofs.FactoryNoPanic.
+
+Theorem c08_wired_qualifier : forall s st h c k p qs n,
+  run repaired s = Ok st ->
+  procs_pointless_b (normalise repaired s) = true -> stages_ok_b (normalise repaired s) = true ->
+  alookup h (L1 (reg st)) <> None -> get_comp (s_pop s) h = Some c -> nth_error (c_points c) k = Some p ->
+  pt_quals p = Some qs -> In n (map owner (field_of st h k)) -> qual_ok (s_pop s) qs n = true.
+Proof.
+  intros s st h c k p qs n H Hpp Hso Hpub Hc Hk Hq Hin.
+  destruct (run_core_wired repaired (normalise repaired s) st eq_refl eq_refl eq_refl eq_refl Hpp Hso H h c k p Hpub Hc Hk)
+    as [x [Hx Hw]].
+  cbn [normalise s_pop s_oracle enum_order fix_c10 repaired] in Hx, Hw.
+  pose proof (wired_point_owners _ _ _ _ _ _ n Hw Hin) as Hn.
+  unfold further_one in Hx.
+  destruct (filter_dependencies repaired (s_pop s) h p (candidates (names_of (s_pop s)) (s_pop s) p)) as [l|] eqn:Ef.
+  - injection Hx as <-. rewrite remove_nil_map_Some in Hn. eapply c08_qualifier; eauto.
+  - destruct (pt_required p); [discriminate|]. injection Hx as <-. contradiction.
+Qed.
